@@ -381,6 +381,17 @@ def run_embedded(res, spec_, rng):
         for _ in range(rng.randint(2, 10)):
             f, t = rng.choice(live), rng.choice(live)
             inner.connect(inner.modules[f], ~inner.modules[t] if rng.random() < 0.25 else inner.modules[t])
+        big = rng.random() < 0.15
+        if big:
+            # a BIG embedded project (long pattern / a sample: 70 KiB .. 200 KiB of embedded data)
+            if rng.random() < 0.5:
+                inner.attach_pattern(api.Pattern(tracks=4, lines=rng.choice([2200, 4096])))
+            else:
+                smp = inner.new_module(api.m.Sampler)
+                s_ = smp.Sample()
+                s_.data, s_.format, s_.channels = bytes(rng.choice([70000, 200000])), smp.Format.int8, smp.Channels.mono
+                smp.samples[0] = s_
+            res.count("big_embedded_states")
         outer = api.Project()
         outer.new_module(api.m.MetaModule, project=inner)
         res.count("states")
@@ -411,6 +422,19 @@ def run_embedded(res, spec_, rng):
         res.count("consistency_evaluations")
         if monitors.links_consistent(in3) or tables(in3) != want:
             res.violation("C08:tables-differ:embedded-after-unplug", f"embedded graph after unplugging {want}, after save+load {tables(in3)}", case)
+        # the first copy was re-wired (and gets a module more); the ORIGINAL bytes, loaded again, still give the saved graph
+        try:
+            extra = in2.new_module(api.m.Distortion)
+            in2.connect(in2.modules[1], extra)
+            o2.read()
+            again = workload.load(outer.read()).modules[1].project
+        except Exception as e:
+            res.violation(f"C08:embedded-unloadable:{workload.exc_key(e)}", f"loading the original bytes again raised {e!r}", case)
+            continue
+        res.count("embedded_second_loads")
+        if tables(again) != tables(inner):
+            res.violation("C08:tables-differ:embedded-second-load", f"the original bytes, loaded again after the first copy was re-wired, give {tables(again)}; saved was {tables(inner)}"
+                                                                    f"{' (big embedded project)' if big else ''}", case)
 
 
 def run_deep(res, spec_, rng):
